@@ -1315,6 +1315,58 @@ func ruleC14DrainAfterRun(c *Ctx) {
 						after = true
 					}
 				}
+				// ... the detached copy may be run by a helper: `list := query.postProcessors; query.postProcessors = fresh;
+				// run(list)`
+				for _, dl := range deepRangeLoops(f) {
+					if dl.fn == f || !(dl.over.Op == "field" && dl.over.Name == "postProcessors") {
+						continue
+					}
+					allInstrs(f, func(cb *ssa.BasicBlock, cin ssa.Instruction) {
+						call, isCall := cin.(*ssa.Call)
+						if !isCall || call.Common().StaticCallee() != dl.fn {
+							return
+						}
+						behind := cb != b && b.Dominates(cb)
+						if cb == b {
+							seenStore := false
+							for _, x := range b.Instrs {
+								if x == ssa.Instruction(st) {
+									seenStore = true
+								}
+								if x == ssa.Instruction(call) && seenStore {
+									behind = true
+								}
+							}
+						}
+						if !behind {
+							return
+						}
+						for _, a := range call.Call.Args {
+							ld, isLd := a.(*ssa.UnOp)
+							if !isLd || ld.Op != token.MUL {
+								continue
+							}
+							fa2, isFA := ld.X.(*ssa.FieldAddr)
+							if !isFA || fieldName(fa2.X.Type(), fa2.Field) != "postProcessors" {
+								continue
+							}
+							before := ld.Block() != b && ld.Block().Dominates(b)
+							if ld.Block() == b {
+								for _, x := range b.Instrs {
+									if x == ssa.Instruction(ld) {
+										before = true
+									}
+									if x == ssa.Instruction(st) {
+										break
+									}
+								}
+							}
+							if before {
+								after = true
+							}
+						}
+					})
+				}
 			}
 			c.Check(after, "c14.drain-after-run", key, c.P.Pos(st.Pos()), "behind the loop that runs the post-processors (or the list is detached and the detached copy is run)", "the pending post-processors are dropped at a point that is not behind the loop that runs them")
 		})
